@@ -102,7 +102,7 @@ def run(ctx):
         ok = bg and b.path == bg[0][1].path
         ctx.ob('R14.2', 'the value is taken out of the Option only on the background blocking thread', bool(ok), ctx.where(b, blk.term.line),
                '%s takes the wrapped value: its destructor would run on the calling thread' % b.name if not ok else '', construct='take-T:' + b.name)
-    ctx.floor('R14.2', 'sites taking the wrapped value', len(takers), 2)
+    ctx.floor('R14.2', 'sites taking the wrapped value', len(takers), 1)
     if bg:
         cb = bg[0][1]
         can = prog.an(cb)
